@@ -28,7 +28,7 @@ from ..core import (
     qual_of,
     walk_no_nested,
 )
-from ..lib import NORMAL, all_calls, must_pass, stores_of, test_edges
+from ..lib import NORMAL, all_calls, must_pass, stores_of, strip_await, test_edges
 from ..selftest import E, M
 
 P = "C19"
@@ -343,9 +343,9 @@ def _acquire_try_finally(slot_attr, call_attr) -> bool:
     return False
 
 
-def rule_queue(program, ctx):
-    rid = ctx.rule(
-        "C19.queue",
+def rule_queue(program, ctx, prop=P, rid="C19.queue"):
+    ctx.rule(
+        rid,
         "the per-connection subscription queue is created unbounded (`asyncio.Queue()`): query tasks await queue.put while holding a "
         "query slot and a DB connection, and disconnecting cancels the only consumer - a bounded queue wedges REQs for every connection",
         floor=1,
@@ -356,7 +356,7 @@ def rule_queue(program, ctx):
             c = st.value
             bounded = bool(c.args) or any(k.arg == "maxsize" for k in c.keywords)
             if bounded:
-                ctx.bad(finding_at(P, rid, st, "the per-connection queue is bounded: producers block in queue.put holding a query slot once the client stops reading"))
+                ctx.bad(finding_at(prop, rid, st, "the per-connection queue is bounded: producers block in queue.put holding a query slot once the client stops reading"))
             else:
                 ctx.ok(rid, st, "subscription_queue = asyncio.Queue() (unbounded)")
 
@@ -446,6 +446,106 @@ def rule_cancelled_await(program, ctx, prop=P, rid="C19.cancelled"):
         ctx.ok(rid, program.func("nostr_relay.storage.base:BaseStorage.unsubscribe"), "no await of a query task on the connection path")
 
 
+def rule_limiter_cleanup(program, ctx, prop=P, rid="C19.limiter"):
+    from ..lib import guard_atoms
+
+    ctx.rule(
+        rid,
+        "RateLimiter.cleanup runs in start_client's finally block outside any handler, so it must not raise for any history: a keyed lookup `D[k]` in it is safe only when "
+        "k is a constant guarded by a membership/`.get` test, k iterates D itself, D is a defaultdict attribute, or the lookup sits in a try that catches KeyError - "
+        "looking a *seen* command up in a table built from the *configured* commands raises KeyError for every command without an ip rule (CLOSE, AUTH, ...)",
+        floor=1,
+    )
+    rl = program.cls("nostr_relay.rate_limiter:RateLimiter")
+    fn = rl.methods.get("cleanup")
+    if fn is None:
+        raise AnalysisError("RateLimiter.cleanup not found")
+    n = 0
+    local_dicts = {}
+    for s_ in walk_no_nested(fn):
+        if isinstance(s_, ast.Assign) and isinstance(s_.targets[0], ast.Name) and isinstance(s_.value, (ast.Dict, ast.DictComp)) or \
+                isinstance(s_, ast.Assign) and isinstance(s_.targets[0], ast.Name) and isinstance(s_.value, ast.Call) and call_name(s_.value) == "dict":
+            local_dicts[s_.targets[0].id] = s_
+    iters = {}  # loop variable -> text of what it iterates
+    for l in ast.walk(fn):
+        if isinstance(l, (ast.For, ast.comprehension)):
+            it = l.iter
+            base = it.func.value if isinstance(it, ast.Call) and isinstance(it.func, ast.Attribute) and it.func.attr in ("items", "keys") else it
+            tgt = l.target.elts[0] if isinstance(l.target, ast.Tuple) and isinstance(it, ast.Call) and getattr(it.func, "attr", "") == "items" else l.target
+            if isinstance(tgt, ast.Name):
+                iters[tgt.id] = ast.unparse(base)
+    for sub in ast.walk(fn):
+        if not (isinstance(sub, ast.Subscript) and isinstance(sub.ctx, ast.Load) and isinstance(sub.value, ast.Name) and sub.value.id in local_dicts):
+            continue
+        n += 1
+        k = sub.slice
+        d = sub.value.id
+        in_try = any(isinstance(a, ast.Try) and any(h.type is None or "KeyError" in ast.unparse(h.type) or "Exception" in ast.unparse(h.type) or "LookupError" in ast.unparse(h.type) for h in a.handlers)
+                     and any(sub is x for b in a.body for x in ast.walk(b)) for a in ancestors(sub))
+        same = isinstance(k, ast.Name) and iters.get(k.id) == d
+        guarded = any(pol and isinstance(e, ast.Compare) and isinstance(e.ops[0], ast.In) and ast.unparse(e.left) == ast.unparse(k) and ast.unparse(e.comparators[0]) == d for e, pol in guard_atoms(sub, stop=fn))
+        if in_try or same or guarded:
+            ctx.ok(rid, sub, f"{d}[{ast.unparse(k)[:20]}] cannot raise KeyError")
+        else:
+            src = iters.get(k.id, "?") if isinstance(k, ast.Name) else "?"
+            ctx.bad(finding_at(prop, rid, sub, f"RateLimiter.cleanup looks `{ast.unparse(k)[:20]}` (from `{src}`) up in the local table `{d}` built at line {local_dicts[d].lineno}: a key that table "
+                               "lacks raises KeyError out of start_client's finally block - the connection handler ends with an unhandled exception"))
+    ctx.ok(rid, fn, f"cleanup: {n} keyed lookups in local tables checked")
+
+
+def rule_token(program, ctx, prop=P, rid="C19.token"):
+    ctx.rule(
+        rid,
+        "start_client dereferences its auth token unconditionally (`auth_token.get(...)` in the finally block that ends every connection), so every binding of that local "
+        "is a mapping: the initial `{}` and the result of Authenticator.authenticate, whose every normal exit returns a dict built in the function (failures raise "
+        "AuthenticationError) - a `return None` for a malformed AUTH payload raises AttributeError out of the connection handler when that connection ends",
+        floor=2,
+    )
+    sc = program.func("nostr_relay.web:start_client")
+    derefs = [a for a in ast.walk(sc) if isinstance(a, ast.Attribute) and dotted(a.value) == "auth_token"]
+    guarded_all = True
+    from ..lib import guard_atoms
+    for a in derefs:
+        if not any(pol and ast.unparse(e) in ("auth_token", "auth_token is not None") for e, pol in guard_atoms(a, stop=sc)):
+            guarded_all = False
+    if derefs and guarded_all:
+        ctx.ok(rid, derefs[0], "start_client tests the token before every dereference")
+        return
+    for st in stores_of(sc, "auth_token"):
+        v = strip_await(st.value) if isinstance(st, ast.Assign) else None
+        if isinstance(v, ast.Dict):
+            ctx.ok(rid, st, "auth_token = {} (anonymous)")
+        elif isinstance(v, ast.Call) and call_name(v).endswith("authenticate"):
+            ctx.ok(rid, st, "auth_token = await authenticate(...)")
+        else:
+            ctx.bad(finding_at(prop, rid, st, f"start_client binds auth_token to `{ast.unparse(v)[:50] if v is not None else ast.unparse(st)[:50]}`, not known to be a mapping; the finally block calls auth_token.get"))
+    fns = [ci.methods["authenticate"] for ci in program.classes.values() if "authenticate" in ci.methods and not ci.module.rel.startswith("<dep>") and ci.module.name.startswith("nostr_relay")]
+    if not fns:
+        raise AnalysisError("no authenticate() implementation found")
+    for fn in fns:
+        cfg = cfg_of(fn)
+        dicts = {t.id for s_ in walk_no_nested(fn) if isinstance(s_, ast.Assign) and isinstance(s_.value, (ast.Dict, ast.DictComp)) or isinstance(s_, ast.Assign) and isinstance(s_.value, ast.Call) and call_name(s_.value) == "dict" for t in s_.targets if isinstance(t, ast.Name)}
+        okall = True
+        rets = [r for r in walk_no_nested(fn) if isinstance(r, ast.Return)]
+        for r in rets:
+            v = strip_await(r.value) if r.value is not None else None
+            good = isinstance(v, (ast.Dict, ast.DictComp)) or (isinstance(v, ast.Name) and v.id in dicts and all(isinstance(s_, ast.Assign) and isinstance(s_.value, (ast.Dict, ast.DictComp, ast.Call)) for s_ in stores_of(fn, v.id))) \
+                or (isinstance(v, ast.Call) and isinstance(v.func, ast.Attribute) and v.func.attr == "authenticate" and "super()" in ast.unparse(v.func.value))
+            if not good:
+                okall = False
+                ctx.bad(finding_at(prop, rid, r, f"{qual_of(fn)} returns `{ast.unparse(r.value)[:40] if r.value is not None else 'None'}`, not a token dict: start_client stores it and later calls "
+                                   "auth_token.get(...) in its finally block - AttributeError escapes the connection handler"))
+        # falling off the end returns None as well
+        retnodes = [n for r in rets for n in cfg.nodes_of(r)]
+        path = cfg.find_path([cfg.entry], [cfg.exit], avoid_nodes=retnodes, kinds=NORMAL)
+        if path:
+            okall = False
+            last = next((cfg.ast_of(n) for n in reversed(path[:-1]) if cfg.ast_of(n) is not None), fn)
+            ctx.bad(finding_at(prop, rid, last, f"{qual_of(fn)} can fall off its end (returns None)", path=cfg.describe_path(path)[-4:]))
+        if okall:
+            ctx.ok(rid, fn, f"{qual_of(fn)}: every normal exit returns a dict")
+
+
 def run(program, ctx):
     from ..lib import rule_awaited
 
@@ -459,6 +559,8 @@ def run(program, ctx):
     rule_filters(program, ctx)
     rule_writer(program, ctx)
     rule_cancelled_await(program, ctx)
+    rule_token(program, ctx)
+    rule_limiter_cleanup(program, ctx)
     from . import c06, c13
 
     c06.rule_reap(program, ctx, prop=P, rid="C19.reap")
